@@ -477,7 +477,7 @@ fn replay_case(case: &J, r: &mut Report) {
 }
 
 fn main() {
-    if std::env::var("VERIF_DEBUG_PANIC").is_err() { std::panic::set_hook(Box::new(|_| {})); }
+    report::install_panic_hook();
     let cfg = Cfg::from_args(|s| if s.starts_with("color") { "C16".into() } else if s.starts_with("xform") { "C09".into() } else { "C20".into() });
     if cfg.replay.is_some() { replay_main(&cfg, replay_case); }
     if cfg.part.starts_with("color") { run_color(&cfg); }
